@@ -47,12 +47,12 @@ def run(ctx, props=PROPS, random_only=False, nrand=None, gen_cls=None, leg=None)
         corpus = [c for c in repo_corpus(quick) if not (quick and c[0] == 'goldmaster')]
         if random_only:
             corpus = []
-        units = prepare_units(ctx, corpus + randschema.make_specs(ctx, nrand or (8 if quick else 50), gen_cls=gen_cls), bins)
+        units = prepare_units(ctx, corpus + randschema.make_specs(ctx, nrand or (8 if quick else 24), gen_cls=gen_cls), bins)
         if leg is not None:     # C11: the kernel dump of these units is cross-checked too (lib/indep_ir.py)
             leg.run(units)
     log('[C02] units ready', round(time.time() - ctx.t0))
-    nvals = 4 if quick else 40
-    nmut = 8 if quick else 40
+    nvals = 4 if quick else 10
+    nmut = 8 if quick else 16
     stats = {"schemas": 0, "types": 0, "inputs": 0, "mutated": 0, "random": 0, "valid": 0, "kernel_rejected": 0}
     verdicts, mism, bad, samples, unit_errors = {}, [], [], [], []
     lock = threading.Lock()
@@ -103,7 +103,7 @@ def run(ctx, props=PROPS, random_only=False, nrand=None, gen_cls=None, leg=None)
             tid, name, boxed = f[2], f[3], f[4]
             b = b"" if o[3:] == "-" else bytes.fromhex(o[3:])
             ops.append((f"rw1 {san} {tid} {name} {boxed} {o[3:]}", "valid", int(tid)))
-            for _ in range(nmut if u.san or not quick else max(1, nmut // 4)):   # without the sanity check hostile counts cost seconds each (allocation by design)
+            for _ in range(nmut if u.san else max(1, nmut // 4)):   # without the sanity check hostile counts cost seconds each (allocation by design)
                 m = mutate_bytes(rng, b, tags, gentle=not u.san)
                 if rng.random() < 0.25:
                     m = mutate_bytes(rng, m, tags, gentle=not u.san)
